@@ -47,6 +47,9 @@ type Verdict struct {
 	Features   []string // feature tags for the evidence histogram
 	Counts     map[string]int
 	Artifacts  map[string]string // extra files for the replay directory
+	// SelfConfirmed: the monitor has already repeated the observation itself (e.g. the confirming run of a hang);
+	// the framework then does not run the case a third time.
+	SelfConfirmed bool
 }
 
 // Case is one generated input; it must be JSON-serialisable.
@@ -287,13 +290,15 @@ func RunProperty(p *Property, env *Env, known *Known, corpus []Case) int {
 		if p.Shrink != nil && v.Finding == "" {
 			c, v = shrink(p, env, c, v)
 		}
-		v2 := safeCheck(p, env, c)
-		if v2.Status != Violated {
-			r.Inconclusive = append(r.Inconclusive, "not reproduced on re-run: "+v.Msg)
-			r.Counts["inconclusive"]++
-			continue
+		if !v.SelfConfirmed {
+			v2 := safeCheck(p, env, c)
+			if v2.Status != Violated {
+				r.Inconclusive = append(r.Inconclusive, "not reproduced on re-run: "+v.Msg)
+				r.Counts["inconclusive"]++
+				continue
+			}
+			v = v2
 		}
-		v = v2
 		seenSite[v.Site+"|"+v.Finding]++
 		if v.Finding != "" {
 			if _, ok := openIDs[v.Finding]; ok {
@@ -405,18 +410,18 @@ func writeReplay(p *Property, env *Env, c Case, v Verdict) string {
 
 func writeEvidence(p *Property, env *Env, r *Report, wall time.Duration) {
 	cov := map[string]interface{}{
-		"evaluations":         r.Evaluations,
-		"distinct_nontrivial": len(r.Nontrivial),
-		"rule":                p.Rule,
-		"samples":             r.Samples,
-		"held":                r.Held,
-		"skipped_outside_domain": r.Skipped,
-		"inconclusive":        r.Counts["inconclusive"],
-		"inconclusive_notes":  r.Inconclusive,
-		"features":            r.Features,
-		"observed":            r.Counts,
+		"evaluations":               r.Evaluations,
+		"distinct_nontrivial":       len(r.Nontrivial),
+		"rule":                      p.Rule,
+		"samples":                   r.Samples,
+		"held":                      r.Held,
+		"skipped_outside_domain":    r.Skipped,
+		"inconclusive":              r.Counts["inconclusive"],
+		"inconclusive_notes":        r.Inconclusive,
+		"features":                  r.Features,
+		"observed":                  r.Counts,
 		"known_findings_reproduced": r.KnownHits,
-		"hooks_on":            env.HooksOn,
+		"hooks_on":                  env.HooksOn,
 	}
 	if len(r.Samples) == 0 {
 		cov["samples"] = []interface{}{"(no held case sampled)"}
